@@ -167,6 +167,18 @@ let handle (toks : String.t list) : String.t =
     (match build_dag ns with
      | Err e -> "err " ^ err_name e
      | Ok ks -> "ok " ^ String.concat "," (List.map (fun k -> String.sub (hex_of_bytes (k_hash k)) 0 12) (order ks.(Array.length ks - 1))))
+  | ["boc_norm"; codes] ->
+    (* boc_norm c1,c2,...: Boc.__init__ on a str given by its code points *)
+    let cs = if codes = "-" then [] else List.map (fun x -> n_of_int (int_of_string x)) (String.split_on_char ',' codes) in
+    (match boc_normalize (InStr cs) with Ok d -> "ok " ^ hex_of_bytes d | Err e -> "err " ^ err_name e)
+  | ["boc_in"; codes] ->
+    (* the three entry points on a str input: root hash, slice view, builder view *)
+    let cs = if codes = "-" then [] else List.map (fun x -> n_of_int (int_of_string x)) (String.split_on_char ',' codes) in
+    let view = function Ok (b, r) -> Printf.sprintf "%s/%d" (str_of_bits b) (List.length r) | Err e -> "err" in
+    (match one_from_boc_in sha256 (InStr cs) with
+     | Err e -> "err " ^ err_name e
+     | Ok k -> Printf.sprintf "ok %s slice=%s builder=%s" (hex_of_bytes (k_hash k))
+                 (view (slice_one_from_boc_in sha256 (InStr cs))) (view (builder_one_from_boc_in sha256 (InStr cs))))
   | ["boc_parse"; h] ->
     (match boc_deserialize sha256 (bytes_of_hex h) with
      | Err e -> "err " ^ err_name e
